@@ -757,7 +757,45 @@ def r9_finite(c, facts):
         c.bad(R, 'get_num:non-finite-values-pass', 'Annotation::get_num hands out whatever f64 the YAML value holds: `minimum: .nan` / `maximum: .inf` are emitted as they are, and the document no longer parses back (nor is it valid JSON Schema)')
 
 
+INTERIOR = ('RefCell<', 'Cell<', 'Mutex<', 'RwLock<', 'OnceCell<', 'OnceLock<', 'LazyCell<', 'LazyLock<', 'Atomic', 'UnsafeCell<')
+
+
+def r16_pure_emission(c, facts, rule='C03.R16'):
+    """every emitting method of oal_openapi::Builder takes `&self`, so what is emitted for one element of the
+    specification is a function of that element and of the immutable builder - as long as the builder has no interior
+    mutability.  A memo field (`RefCell<HashMap<String, Vec<Parameter>>>` keyed by the *shape* of a URI) makes the
+    parameters emitted for `/items/{sku}` those computed earlier for `/items/{id}`: the path key names a variable that
+    has no path parameter.  The rule cannot judge the key of a cache, so any interior-mutable field is reported."""
+    R = c.rule(rule, 'PURE-EMISSION: oal_openapi::Builder holds no interior-mutable state, so what is emitted for a path, an operation or a schema depends on that element alone and not on what was emitted before')
+    adt = facts.adt('oal_openapi::Builder')
+    if not adt or not adt.get('variants'):
+        c.bad(R, 'anchor-missing:oal_openapi::Builder', 'struct oal_openapi::Builder not found')
+        return
+    fields = adt['variants'][0]['fields']
+    c.floor(R, 'fields of oal_openapi::Builder', len(fields), 2)
+    for name, ty in fields:
+        inst = {'field': name, 'type': ty[:120]}
+        hit = [k for k in INTERIOR if k in ty]
+        if hit:
+            c.bad(R, 'builder-field-interior-mutable:%s' % name, 'Builder.%s is interior-mutable (%s): a `&self` emitter can remember what it produced for an earlier element and hand it out for a later one (a cache keyed by anything coarser than the element itself makes two distinct paths share parameters, two schemas share a body)' % (name, ty[:100]), **inst)
+        else:
+            c.ok(R, inst)
+    # and no emitter takes the builder mutably
+    n = 0
+    for fn in sorted(facts.fns.values(), key=lambda f: f.qname):
+        if not fn.mir or not fn.qname.startswith('oal_openapi::Builder::') or fn.kind == 'Closure':
+            continue
+        n += 1
+        a1 = fn.mir['locals'][1]['ty'] if fn.mir.get('argc', 0) >= 1 else ''
+        short = fn.qname.split('::')[-1]
+        if a1.startswith('&mut') and 'Builder' in a1:
+            c.bad(R, 'builder-method-takes-mut-self:%s' % short, 'Builder::%s takes `&mut self`: emission can change the builder between two elements' % short, fn=short)
+    c.floor(R, 'methods of Builder scanned', n, 30)
+    c.ok(R, {'methods scanned': n, 'none takes &mut self': True})
+
+
 def run(c, facts):
+    c.run(r16_pure_emission, facts)
     import lexrules
     c.run(lambda c: lexrules.status_digits(c, facts, 'C03.R10'))
     c.run(r9_finite, facts)
@@ -783,3 +821,6 @@ def run(c, facts):
     c.run(r1_ref_close, facts)
     c.run(r2_status_dom, facts)
     c.run(r3_path_param, facts)
+
+
+EXPLANATION += ' (R16) PURE-EMISSION: oal_openapi::Builder has no interior-mutable field and no `&mut self` method, so the parameters, operations and schemas emitted for one element never come from a memo filled for another.'
